@@ -39,16 +39,27 @@ structure Cfg where
   fixHostBuf : Bool
   /-- D24: `_hostrange_string` (`hostlist_nth`) prints the whole name -/
   fixNth : Bool
+  /-- D19: `hostlist_delete_range` puts an iterator that stood on the deleted record on the LAST
+      host of the previous record (instead of keeping its depth) -/
+  fixRemoveDepth : Bool := false
+  /-- D20: `hostlist_pop` deletes an emptied record through `hostlist_delete_range` (iterators are
+      re-based) instead of freeing it behind their back -/
+  fixPopIter : Bool := false
+  /-- D26: `hostrange_cmp` compares the low bounds as numbers instead of returning their
+      `unsigned long` difference cut to `int` -/
+  fixCmpTrunc : Bool := false
   deriving DecidableEq, Repr, Inhabited
 
 /-- the code as found -/
 def Cfg.unchanged : Cfg :=
   { fixUlongMax := false, fixDigits := false, fixIterSuffix := false, fixCurTok := false,
-    fixSuffixBal := false, fixHostBuf := false, fixNth := false }
+    fixSuffixBal := false, fixHostBuf := false, fixNth := false, fixRemoveDepth := false,
+    fixPopIter := false, fixCmpTrunc := false }
 /-- the code with findings/C01.patch, C15.patch (and D24 of C16.patch) applied -/
 def Cfg.repaired : Cfg :=
   { fixUlongMax := true, fixDigits := true, fixIterSuffix := true, fixCurTok := true,
-    fixSuffixBal := true, fixHostBuf := true, fixNth := true }
+    fixSuffixBal := true, fixHostBuf := true, fixNth := true, fixRemoveDepth := true,
+    fixPopIter := true, fixCmpTrunc := true }
 
 /-! ### `unsigned long` -/
 def U64 : Nat := 18446744073709551616
